@@ -20,9 +20,10 @@ LEVEL_NOTE = "Trusts vmon/ref/timeline.py and the cell renderer of vmon/gen/note
 RULE = c11.RULE + " For time_notes each case carries a generated chart (1-3 players, keysounds) with notes on event beats, +-1 tick, inside warps."
 EXHAUSTIVE_PART = c11.EXHAUSTIVE_PART + "; hittable on every tick from beat -1 to beat 9"
 ASSUMPTIONS = ["exact rational timeline is the specification", "NoteData decodes the generated text (C07)"]
-MONITORS = ["hittable", "time_notes", "order_independence"]
+MONITORS = ["hittable", "time_notes", "order_independence", "timing_data_reused"]
 REQUIRED = ["routine_tap_in_warp", "keysounded_tap_in_warp", "pause_in_warp_note", "non_tap_in_warp",
-            "stop_inside_warp", "delay_inside_warp", "three_warps_one_union", "two_unhittable_notes_across_pause", "corpus"]
+            "stop_inside_warp", "delay_inside_warp", "three_warps_one_union", "two_unhittable_notes_across_pause", "corpus",
+            "off_grid_note_right_after_a_pause"]
 TICK = Fraction(1, 48)
 
 
@@ -184,6 +185,19 @@ def check(ctx, case):
         if prev is not None and tl.time(Fraction(prev.beat)) != tl.time(Fraction(n.beat)) and prev.player == n.player:
             ctx.feat("two_unhittable_notes_across_pause")
         prev = n
+    # off-grid notes (rows of a 5-, 7- or 256-row measure are not multiples of 1/48 beat) right after the pauses
+    from simfile.notes import Note as _Note
+
+    extra = []
+    if not grid or ctx.evaluations % 3 == 0:
+        for (pb, _v) in (tl.stops + tl.delays)[:4]:
+            for rows in (256, 5, 7):
+                m = int(pb // 4)
+                r = int((pb - 4 * m) * rows / 4) + 1
+                if r < rows:
+                    extra.append(_Note(Beat(4 * m * rows + 4 * r, rows), 0, NoteType.TAP))
+        if extra:
+            ctx.feat("off_grid_note_right_after_a_pause")
     for opt in UnhittableNotes:
         ctx.mon("time_notes")
         want = []
@@ -195,6 +209,15 @@ def check(ctx, case):
                 want.append((tl.time(b), n._replace(note_type=NoteType.FAKE)))
         kwargs = {} if (opt is UnhittableNotes.TAP_TO_FAKE and ctx.evaluations % 4 == 0) else {"unhittable_notes": opt}
         got = list(time_notes(nd, td, **kwargs))
+        if extra:
+            # a second, tiny chart holding only the off-grid notes (one measure each, built with from_notes)
+            for n in extra:
+                one = NoteData.from_notes([n], 1)
+                b = Fraction(n.beat)
+                g1 = list(time_notes(one, td, UnhittableNotes.KEEP_NOTE))
+                if not (len(g1) == 1 and abs(Fraction(float(g1[0].time)) - tl.time(b)) <= Fraction(1, 10**9)):
+                    ctx.violation("time_notes:off-grid-note", {"beat": str(b), "got": repr(g1), "want_time": float(tl.time(b)), "timing": timing})
+                    break
         ok = len(got) == len(want)
         bad = None
         if ok:
@@ -207,3 +230,14 @@ def check(ctx, case):
         if not ok:
             ctx.violation(f"time_notes:{opt.name}", {"n_got": len(got), "n_want": len(want), "first_bad": bad,
                                                      "timing": timing, "text": text[:400]})
+    # the same TimingData object after an in-place change of its offset
+    ctx.mon("timing_data_reused")
+    from decimal import Decimal
+
+    td.offset = td.offset + Decimal("2.25")
+    again = list(time_notes(nd, td, UnhittableNotes.KEEP_NOTE))
+    for g, n in zip(again, decoded):
+        if abs(Fraction(float(g.time)) - (tl.time(Fraction(n.beat)) - Fraction(9, 4))) > Fraction(1, 10**9):
+            ctx.violation("time_notes:stale-after-in-place-offset-change", {"note": repr(n), "got": float(g.time),
+                                                                           "want": float(tl.time(Fraction(n.beat)) - Fraction(9, 4)), "timing": timing})
+            break
